@@ -127,15 +127,15 @@ PROPS = {
         explanation='Verus: postcondition of current_op against a spec table + lemmas comparing the table with the specification order.',
     ),
     'C12': dict(
-        units=['lex', 'parser', 'synx', 'sym'],
+        units=['lex', 'parser', 'synx', 'sym', 'short'],
         decided=[
             'lexical diagnostics: token index < number of tokens, ranges start[i]..start[i+1] ordered, in range, on token (= char) boundaries',
             'an ERROR node is only ever completed after an error event has been recorded (precondition of Marker::complete at every call site of the grammar), recorded errors are never lost',
+            'parser diagnostics (unit SHORT, intersperse_trivia): every Error step handed to the tree builder is placed at the start of a raw token of the table or at the end of the text (so start <= length, on a character boundary)',
             'semantic diagnostics (unit SYM, semantic_error.rs): SemanticErrorList::insert appends exactly one diagnostic attached to the syntax node of the AST node it was given, and SemanticError::range is the text range of that node',
             'the conversion of lexical diagnostics to syntax errors (parsing.rs): every range has start <= end <= length of the text, TextRange::new / TextSize::try_from never fail (unit SYNX)',
         ],
         not_decided=[
-            'parser diagnostic offsets through Builder (SHORT unit)',
             'escape-validation offsets, ERROR *tokens* without a diagnostic (lexer Unknown -> ERROR kind)',
             '"a diagnostic-free parse contains no error node" as a whole-tree statement',
         ],
@@ -214,11 +214,12 @@ PROPS = {
             '(c) to_input keeps exactly the non-trivia kinds, in order; a token is marked joint iff the very next raw token is not trivia (or it is a float not ending in `.`); the input is well formed and EOF-free',
             '(d) Parser::eat(K) advances by exactly 2 / 3 raw tokens for the composite kinds and only when the pieces are present and glued, 1 otherwise; do_bump is the only writer of pos; the Token event carries that count',
             '(f) Builder: do_token emits exactly one Token step carrying the text of the next n raw tokens; eat_trivias emits every pending trivia token in place; the Token steps handed to the sink cover the raw tokens [0, pos) consecutively (invariant preserved by token / exit / eat_trivias / do_token)',
+            'intersperse_trivia (D18): every step of the parser output reaches the builder in order; the Token steps handed to the sink are exactly the raw tokens [0, q) of the table with q the position the Token steps lead to (each consumes the pending trivia and exactly its n_input_tokens raw tokens); the `unreachable!` arms are proved from the assumed shape of the output (Enter first, Exit last, no FloatSplit)',
             'both parse entry points lex exactly the text they were given and hand the tree builder the token table and the parser output of that same text (unit SYNX; the builder itself is trusted)',
         ],
         not_decided=[
             '(e) Output encode/decode identity is decided in the thorough tier only (Kani, full domain for one event)',
-            'intersperse_trivia loop and Builder::enter (iterators / closures): that every Output step reaches the builder in order, and token(..) preconditions hold there',
+            'Builder::enter (iterator chain, n_attached_trivias): trusted to emit only pending trivia and the Enter step',
             'event::process keeps the order of Token events; rowan GreenNodeBuilder turns balanced Enter/Token/Exit streams into a tree whose text is the concatenation (external crate)',
             '(g) the parser consumes all non-trivia tokens (source_file exits its loop only at EOF: proved as loop exit condition, not stated as a postcondition)',
         ],
